@@ -767,6 +767,13 @@ fn process_request_obj(request: &Request, dbs: &Arc<Databases>, client: &mut Cli
     }
 }
 
+fn lock_replication_order(dbs: &Arc<Databases>) -> std::sync::MutexGuard<'_, ()> {
+    // A panic in a handler must not stop every later write
+    dbs.replication_order
+        .lock()
+        .unwrap_or_else(|poisoned| poisoned.into_inner())
+}
+
 pub fn process_request(input: &str, dbs: &Arc<Databases>, client: &mut Client) -> Response {
     let input_to_log = clean_string_to_log(input, &dbs);
     log::debug!(
@@ -788,6 +795,18 @@ pub fn process_request(input: &str, dbs: &Arc<Databases>, client: &mut Client) -
         crate::bo::get_var_type(&request)
     );
 
+    // A key write and its hand over to the replication channel happen under one lock, otherwise
+    // two clients writing the same key at the same time can reach the other nodes in the opposite
+    // order of the one they were applied in here, and the nodes end with different values
+    let _replication_order = match request {
+        Request::Set { .. }
+        | Request::Remove { .. }
+        | Request::Increment { .. }
+        | Request::ReplicateSet { .. }
+        | Request::ReplicateRemove { .. }
+        | Request::ReplicateIncrement { .. } => Some(lock_replication_order(&dbs)),
+        _ => None,
+    };
     let result = process_request_obj(&request, &dbs, client);
 
     #[cfg(feature = "verif")]
